@@ -22,7 +22,7 @@ RULE = ("qmail-clean: every request stream over {f,o,p,/,1,NUL,x} and over {t,o,
         "trace; non-trivial = distinct input with a complete request of >= 7 bytes / a complete command / a NUL-terminated report")
 
 ARGS = {"quick": dict(L1=7, L2=4, NR=40000, LS=4, LS1=5, NS=6000, LD=5, ND=4000),
-        "thorough": dict(L1=9, L2=5, NR=400000, LS=6, LS1=7, NS=100000, LD=6, ND=40000)}
+        "thorough": dict(L1=8, L2=5, NR=400000, LS=5, LS1=6, NS=50000, LD=6, ND=20000)}
 
 HARNESSES = [  # (name, source, link_like, exclude, defines)
     ("h_c18_clean", "harness/c18_clean.c", "qmail-clean", [], ""),
@@ -156,15 +156,10 @@ def main():
         "system calls of the helpers are scripted by the harness: unlink/open/fstat/pipe/fork/select/read outcomes are inputs of both the C run and the model",
         "qmail-clean: the pid/ directory is absent (cleanuppid's own unlinks are outside the request protocol)",
         "spawn.c: out-of-memory (flagabort), write errors on descriptor 1 and EINTR are not exercised; the code after fork() in the child is not run (C11)",
-        "qmail-rspawn report(): child outputs for which the C code reads beyond the end of the output (no NUL after the second status letter) are "
-        "recognised by the harness and not executed; they are counted as rspawn_report_overread_cases (see notes/C18.md, finding 1)",
-        "qmail-send: virtualdomains is empty in addbounce (stripvdomprepend is the identity); no new delivery starts while the stream is read",
+        "the harness poisons the unused tail of a child's output buffer while report() runs, so a read beyond the output aborts under ASan and is reported with its input",
+        "qmail-send: virtualdomains, locals and percenthack are empty in addbounce (stripvdomprepend is the identity); no new delivery starts while the stream is read",
         "unsigned long is 64 bits (LP64)",
     ]
-    n_over = int(stats.get("rspawn_report_overread_cases", 0))
-    if n_over:
-        c.notes.append("qmail-rspawn.c report(): %d generated child outputs would be read past their end by the second substdio_puts "
-                       "(harness did not execute them); this is outside the text of C18 and recorded in notes/C18.md" % n_over)
     standard_verdict(c, ok, stats, disagree, oracle, errors,
                      "Clean.run / Spawn.run / SendReport.feed (lean/Nq) vs qmail-clean.c main, spawn.c+qmail-[lr]spawn.c, qmail-send.c del_dochan",
                      neighbourhood, replay_hint="./check C18 --replay <file of stdin cases: lines 'C …', 'S …', 'D …' as documented in harness/c18_*.c>")
